@@ -16,3 +16,12 @@ PROPS = {
           variants={'quick': ['plain'], 'thorough': ['plain', 'checkptr']},
           must_observe=['ops_on_offset_views', 'storage_rows_checked']),
 }
+
+META = {
+ 'C11': dict(
+    text='Exploration: the real frame package is driven through every single operation on every view of small frames and through '
+         'random operation sequences, with a plain slice-of-rows model as oracle and full-storage comparison after every step; '
+         'thorough adds a checkptr build for the unsafe pointer arithmetic. Held on the executions produced, not a proof.',
+    note='Trusts the model (c11.go), reflect, the build shim. Frames are built over Go slices owned by the monitor.',
+    technique='model-based runtime monitoring (slice-of-rows reference model, canary storage comparison, checkptr build)'),
+}
